@@ -331,6 +331,10 @@ func (r *SparseInt32Vector) MdotV(a ConstMatrix, b ConstVector) Vector {
     panic("matrix/vector dimensions do not match!")
   }
   if n == 0 || m == 0 {
+    // empty sum
+    for i := 0; i < r.Dim(); i++ {
+      r.AT(i).Reset()
+    }
     return r
   }
   if r.AT(0) == b.ConstAt(0) {
@@ -356,6 +360,10 @@ func (r *SparseInt32Vector) VdotM(a ConstVector, b ConstMatrix) Vector {
     panic("matrix/vector dimensions do not match!")
   }
   if n == 0 || m == 0 {
+    // empty sum
+    for i := 0; i < r.Dim(); i++ {
+      r.AT(i).Reset()
+    }
     return r
   }
   if r.AT(0) == a.ConstAt(0) {
